@@ -1,6 +1,6 @@
 (* C02/Examples.v — non-vacuity: concrete configurations, bits and scripts that
    satisfy the hypotheses of the theorems and reach every phase. *)
-From XV Require Import lib.Bytes gen.NegTables C02.Model C02.Frame C02.Phase C02.Proofs.
+From XV Require Import lib.Bytes gen.NegTables C02.Model C02.Frame C02.Phase C02.Adv C02.Proofs.
 
 Definition dom : bytes := str "example.net".
 Definition cfg_ok : config := mkCfg [starttls_feature; sasl_feature; bind_feature] true dom.
@@ -76,3 +76,17 @@ Example ex_phases :
   aut 0%N (trace (run false cfg_ok None 0%N [hdr] [] [] [])) = Some P1 /\
   aut 0%N (trace (run false cfg_bad_hs None 0%N [hdr; fl [c_tls true]; proceed] [] [] [ns_StartTLS])) = Some P5.
 Proof. vm_compute. auto. Qed.
+
+(* what was advertised in clear text only is not reported for the protected stream *)
+Definition c_roster := FC (str "urn:xmpp:features:rosterver") (str "ver") false false.
+Example ex_clear_features_forgotten :
+  let r := run false cfg_ok None 0%N [hdr; fl [c_tls true; c_roster]; proceed] [hdr; fl [c_sasl]; hdr; fl [c_bind]]
+               [mkO st_Authn true false; mkO st_Ready false false] [ns_StartTLS; ft_sasl_space; ft_bind_space] in
+  r_class r = ROk /\ m_adv (r_state r) = [ft_bind_space] /\
+  mem (str "urn:xmpp:features:rosterver") (m_adv (r_state r)) = false /\ mem ns_StartTLS (m_adv (r_state r)) = false.
+Proof. vm_compute. auto. Qed.
+(* without a restart in between, successive lists accumulate, as in the code *)
+Example ex_features_accumulate_without_restart :
+  let r := run false cfg_ok None 0%N [hdr; fl [c_tls true; c_roster]; failure] [] [] [ns_StartTLS] in
+  m_adv (r_state r) = [str "urn:xmpp:features:rosterver"; ns_StartTLS].
+Proof. vm_compute. reflexivity. Qed.
